@@ -57,7 +57,7 @@ def C13(chk):
 
 # --------------------------------------------------------------------------------- L1-only parts
 def order_sweep(chk):
-    """classification of every value is a function of the value only: six call orders, aliases above U+10FFFF, 8 threads"""
+    """classification of every value is a function of the value only: ten call orders (four lookups per visit and one lookup per visit), aliases above U+10FFFF, 8 threads"""
     out, t = run_harness(["ordersweep", "--seed", str(chk.seed)])
     osum = None
     for line in out.splitlines():
@@ -648,6 +648,9 @@ def C16(chk):
     # (3) multi-threaded sessions in fresh processes, racing on the first use of the statics
     from l3 import session_run
     session_run(chk, processes=6 if q else 60, threads=8, calls=40 if q else 60)
+    # (3b) volume: concurrent results against the sequential reference, first use racing in every fresh process
+    from l3 import race_run
+    race_run(chk, processes=120 if q else 1500, long_processes=4 if q else 40)
     # (4) single-threaded histories: several different calls on the same string in a row
     l3_run(chk, "histories", strings=1000 if q else 6000, per_string=6, max_len=6)
     chk.cov["rule"] = ("design: the session machine (threads x Once cells of the lazy statics x API forms), every interleaving of 3 threads x 1 "
@@ -655,7 +658,9 @@ def C16(chk):
                        "(incl. final-sigma and dotted-I contexts) through static / long-lived / fresh instance x &str / String / Cow::Borrowed / "
                        "Cow::Owned, all must equal the reference call; %d fresh processes x 8 threads released by a barrier whose first call "
                        "races on the same static profile, results judged by TLC against Sem and required equal for equal calls across "
-                       "threads, forms, argument kinds, processes and histories (memo in Trace_Api.tla)" % (n, 6 if q else 60))
+                       "threads, forms, argument kinds, processes and histories (memo in Trace_Api.tla); %d more fresh processes x 16 threads whose first "
+                       "calls race on labels of different scripts / mapping paths, every concurrent result compared with the sequential "
+                       "reference (whose inputs TLC judges in trace 'race-inputs')" % (n, 6 if q else 60, 124 if q else 1540))
 
 
 PROPS = {"C15": C15, "C16": C16, "C17": C17, "C01": C01, "C08": C08, "C02": C02, "C03": C03, "C07": C07, "C09": C09, "C04": C04, "C05": C05, "C06": C06, "C10": C10, "C11": C11, "C12": C12, "C13": C13, "C14": C14, "C18": C18}
